@@ -202,6 +202,22 @@ for _p, _t in EXTRA6.items():
     if _p in CLAIMED:
         CLAIMED[_p]["text"] += _t
 
+EXTRA7 = {
+ "C01": " After the third defect hunt: the FROM-less arm of exec evaluates WHERE (exec.dual-where, fixed defect b47772a); IN / NOT IN take the only column of a subquery row only from a row known to have one (c12.arbitrary-entry, fixed defect 2085080).",
+ "C03": " After the third defect hunt: HAVING without grouping columns is refused, never skipped (build.having-needs-group, fixed defect 64be30c).",
+ "C10": " After the third defect hunt: Prepare recovers like New (c10.entry-recover, fixed defect f5ef079); a lazy CTE entry read as a join key is evaluated while the catalog is built (c13.catalog-resolves-thunks, fixed defect 9a98085); a strategy goroutine gets a snapshot of its row (c13.goroutine-row-snapshot, fixed defect 7104f51).",
+ "C12": " After the third defect hunt: only execAndPostProcess and EXISTS call exec(); whoever reads or keeps nested rows runs the nested query to completion (c12.exec-callers restated, fixed defect b551faf); post-processors of an execution leave the list when it returns (c14.drain-after-run/run-once, fixed defect 6fdefe6); c12.arbitrary-entry; colliding key forms under a map range (c12.determinism, fixed defect 407c159).",
+ "C13": " After the third defect hunt: c14.drain-after-run/run-once; failure exits behind a nested exec await its calls (c14.nested-failure-waits, c14.await-waits, fixed defect c9d5b63); c13.catalog-resolves-thunks; c13.goroutine-row-snapshot.",
+ "C14": " After the third defect hunt: c14.drain-after-run/run-once (a Query executed again made 3, 6, 9 calls); c12.exec-callers (an ASYNC column of a derived table was read before delivery); c14.nested-failure-waits and c14.await-waits on failure paths.",
+ "C16": " After the third defect hunt: inside double quotes the quote rewriter pairs escapes as the placeholder lexer does (c17.dq-escapes, fixed defect 860a4ce: an argument could close an identifier of the template under PostgresEscapingDialect); the rewriters skip comments (c17.comment-states, fixed defect 7a8cecb); an integer argument is rendered only when a float64 holds it exactly (c16.lexer-tokenizer/int-exact, fixed defect 165e681).",
+ "C17": " After the third defect hunt: c17.dq-escapes; c17.comment-states.",
+ "C19": " After the third defect hunt: a failed CTE evaluation puts the unevaluated entry back (c07.cte-memo/failure-restores, fixed defect 4418c6e); exec.dual-where; build.having-needs-group.",
+ "C20": " After the third defect hunt: a register is named by the decimal text of the key, TextOf (c20.cell, fixed defect 4b88a8c).",
+}
+for _p, _t in EXTRA7.items():
+    if _p in CLAIMED:
+        CLAIMED[_p]["text"] += _t
+
 _pending = "rule set for this property is not implemented yet in this round (see DESIGN.md section 2 for the planned structural rules)"
 for p in ["C01","C02","C03","C04","C05","C06","C07","C09","C10","C11","C12","C13","C14","C15","C16","C17","C18","C19","C20"]:
     if p not in CLAIMED:
